@@ -47,94 +47,183 @@ func mustReach(from ssa.Instruction, pred func(ssa.Instruction) bool) bool {
 	return walk(blk, start+1)
 }
 
+// drainPart: ConsumeCacheMessages itself, or an unexported helper of the same package it calls directly (with the
+// call site and the helper's parameters bound to the caller's argument terms).
+type drainPart struct {
+	fn   *ssa.Function
+	c    *FCtx
+	site *ssa.Call // nil for ConsumeCacheMessages itself
+}
+
+func drainParts(a *Analyzer, fn *ssa.Function, c *FCtx) []drainPart {
+	parts := []drainPart{{fn, c, nil}}
+	for _, b := range fn.Blocks {
+		for _, in := range b.Instrs {
+			call, ok := in.(*ssa.Call)
+			if !ok || isLoggingCall(&call.Call) {
+				continue
+			}
+			g := call.Call.StaticCallee()
+			if g == nil || g.Blocks == nil || g.Pkg != fn.Pkg || (g.Object() != nil && g.Object().Exported()) || g == fn {
+				continue
+			}
+			args := make([]*Term, len(call.Call.Args))
+			for i, x := range call.Call.Args {
+				args[i] = c.Term(x)
+			}
+			env := bindEnv(a, g, args, nil)
+			for _, p := range g.Params {
+				if sg := a.singletonOf(p.Type()); sg != "" {
+					env[p] = This(sg)
+				}
+			}
+			parts = append(parts, drainPart{g, a.NewFCtx(g, env, 0), call})
+		}
+	}
+	return parts
+}
+
 func runC17(a *Analyzer, r *Results) {
 	pr := props("C17", "C13")
 	fn := a.P.Func(idE2)
 	c := a.NewFCtx(fn, a.EntryEnv(fn, nil), 0)
 	rmf := This("rawmessagesfilter.RawMessageFilter")
 	cache := Field(rmf, "futureCache")
+	parts := drainParts(a, fn, c)
+	// the position of a part's instruction in ConsumeCacheMessages: itself, or the call that leads to it
+	anchor := func(p drainPart, in ssa.Instruction) ssa.Instruction {
+		if p.site != nil {
+			return p.site
+		}
+		return in
+	}
 	// the drain read: Lookup on the cache
-	var reads []*ssa.Lookup
-	for _, b := range fn.Blocks {
-		for _, in := range b.Instrs {
-			if lk, ok := in.(*ssa.Lookup); ok && c.Term(lk.X).Key() == cache.Key() {
-				reads = append(reads, lk)
+	type read struct {
+		p  drainPart
+		lk *ssa.Lookup
+	}
+	var reads []read
+	for _, p := range parts {
+		for _, b := range p.fn.Blocks {
+			for _, in := range b.Instrs {
+				if lk, ok := in.(*ssa.Lookup); ok && p.c.Term(lk.X).Key() == cache.Key() {
+					// helpers that only maintain the cache (no delivery reachable) are not drain reads
+					if p.site != nil && !mayDeliver(a, p.fn) {
+						continue
+					}
+					reads = append(reads, read{p, lk})
+				}
 			}
 		}
 	}
 	if len(reads) == 0 {
 		r.Check("F6.read", pr, "the drain reads the cache with a single lookup at the key Read(State.height) (only the current height's backlog is replayed)", "ConsumeCacheMessages", a.P.Pos(fn.Pos()), false, "ConsumeCacheMessages does not look the current height up in the cache (it iterates or ignores it)", "C")
 	}
-	for _, lk := range reads {
-		key := c.Term(lk.Index)
-		ok := mustReach(lk, func(in ssa.Instruction) bool {
-			call, ok := in.(*ssa.Call)
-			if !ok || !isBuiltin(call, "delete") {
-				return false
+	for _, rd := range reads {
+		lk := rd.lk
+		key := rd.p.c.Term(lk.Index)
+		deletes := func(pc *FCtx) func(in ssa.Instruction) bool {
+			return func(in ssa.Instruction) bool {
+				call, ok := in.(*ssa.Call)
+				if !ok || !isBuiltin(call, "delete") {
+					return false
+				}
+				return pc.Term(call.Call.Args[0]).Key() == cache.Key() && pc.Term(call.Call.Args[1]).Key() == key.Key()
 			}
-			return c.Term(call.Call.Args[0]).Key() == cache.Key() && c.Term(call.Call.Args[1]).Key() == key.Key()
-		})
+		}
+		ok := mustReach(lk, deletes(rd.p.c))
+		if !ok && rd.p.site != nil {
+			ok = mustReach(rd.p.site, deletes(c))
+		}
 		r.Check("F6.delete", pr, "after the drain read of the cache at a key, every path to the function's exit deletes that key (no message is delivered twice)", "ConsumeCacheMessages", a.P.InstrPos(lk), ok, "a path from the drain read reaches the return without delete(cache, key)", "P")
 	}
 	// F7: re-entrancy guard inside the drain loop
-	li := a.Loops(fn)
-	nLoops := 0
-	for _, l := range li.Loops {
-		if l.Coll == nil {
-			continue
-		}
-		ct := c.Term(l.Coll)
-		if !strings.Contains(ct.Key(), cache.Key()) {
-			continue
-		}
-		nLoops++
-		// deliveries inside the loop: calls that (transitively) reach the handler
-		for b := range l.Body {
-			for _, in := range b.Instrs {
-				call, ok := in.(*ssa.Call)
-				if !ok || isLoggingCall(&call.Call) {
-					continue
+	type drainLoop struct {
+		p drainPart
+		l *Loop
+	}
+	var loops []drainLoop
+	for _, p := range parts {
+		for _, l := range a.Loops(p.fn).Loops {
+			if l.Coll == nil {
+				continue
+			}
+			ct := p.c.Term(l.Coll)
+			if !strings.Contains(ct.Key(), cache.Key()) {
+				continue
+			}
+			loops = append(loops, drainLoop{p, l})
+			// deliveries inside the loop: calls that (transitively) reach the handler
+			for b := range l.Body {
+				for _, in := range b.Instrs {
+					call, ok := in.(*ssa.Call)
+					if !ok || isLoggingCall(&call.Call) {
+						continue
+					}
+					if _, isB := call.Call.Value.(*ssa.Builtin); isB {
+						continue
+					}
+					w := a.callWrites(call)
+					reentrant := w["rawmessagesfilter.RawMessageFilter.consensusMessagesHandler"] || w["state.State.height"] || w["rawmessagesfilter.RawMessageFilter.futureCache"]
+					if !reentrant {
+						r.Check("F7", pr, "a delivery inside the drain loop either cannot change the handler/height/cache, or is preceded in the same iteration by a fresh height test that leaves the loop", "ConsumeCacheMessages|"+calleeLabel(&call.Call), a.P.InstrPos(in), true, "", "Re")
+						continue
+					}
+					ok2, why := drainGuard(a, p.c, l, call)
+					r.Check("F7", pr, "a delivery inside the drain loop either cannot change the handler/height/cache, or is preceded in the same iteration by a fresh height test that leaves the loop", "ConsumeCacheMessages|"+calleeLabel(&call.Call), a.P.InstrPos(in), ok2, why, "Re")
 				}
-				if _, isB := call.Call.Value.(*ssa.Builtin); isB {
-					continue
-				}
-				w := a.callWrites(call)
-				reentrant := w["rawmessagesfilter.RawMessageFilter.consensusMessagesHandler"] || w["state.State.height"] || w["rawmessagesfilter.RawMessageFilter.futureCache"]
-				if !reentrant {
-					r.Check("F7", pr, "a delivery inside the drain loop either cannot change the handler/height/cache, or is preceded in the same iteration by a fresh height test that leaves the loop", "ConsumeCacheMessages|"+calleeLabel(&call.Call), a.P.InstrPos(in), true, "", "Re")
-					continue
-				}
-				ok2, why := drainGuard(a, c, l, call)
-				r.Check("F7", pr, "a delivery inside the drain loop either cannot change the handler/height/cache, or is preceded in the same iteration by a fresh height test that leaves the loop", "ConsumeCacheMessages|"+calleeLabel(&call.Call), a.P.InstrPos(in), ok2, why, "Re")
 			}
 		}
 	}
-	if nLoops == 0 {
+	if len(loops) == 0 {
 		r.Undecided = append(r.Undecided, "ConsumeCacheMessages has no loop over the cached messages (anchor)")
 	}
 	// F7.handler: the handler field is set before the drain and never after (a nested drain's newer handler must survive)
-	nStore := 0
-	for _, b := range fn.Blocks {
-		for _, in := range b.Instrs {
-			st, ok := in.(*ssa.Store)
-			if !ok || a.addrLoc(st.Addr) != "rawmessagesfilter.RawMessageFilter.consensusMessagesHandler" {
-				continue
+	before := func(st ssa.Instruction, x ssa.Instruction) bool {
+		// st strictly precedes x on every path to x (both in ConsumeCacheMessages)
+		if st.Block() == x.Block() {
+			for _, in := range st.Block().Instrs {
+				if in == st {
+					return true
+				}
+				if in == x {
+					return false
+				}
 			}
-			nStore++
-			ok2 := true
-			for _, l := range li.Loops {
-				if l.Coll != nil && strings.Contains(c.Term(l.Coll).Key(), cache.Key()) {
-					if !b.Dominates(l.Header) || l.Body[b] {
+		}
+		return st.Block().Dominates(x.Block())
+	}
+	nStore := 0
+	for _, p := range parts {
+		for _, b := range p.fn.Blocks {
+			for _, in := range b.Instrs {
+				st, ok := in.(*ssa.Store)
+				if !ok || a.addrLoc(st.Addr) != "rawmessagesfilter.RawMessageFilter.consensusMessagesHandler" {
+					continue
+				}
+				nStore++
+				ok2 := true
+				at := anchor(p, in)
+				for _, dl := range loops {
+					if dl.p.fn == p.fn && p.site == dl.p.site {
+						if !b.Dominates(dl.l.Header) || dl.l.Body[b] {
+							ok2 = false
+						}
+					} else if !before(at, anchor(dl.p, dl.l.Header.Instrs[0])) {
 						ok2 = false
 					}
 				}
-			}
-			for _, lk := range reads {
-				if !b.Dominates(lk.Block()) {
-					ok2 = false
+				for _, rd := range reads {
+					if rd.p.fn == p.fn && p.site == rd.p.site {
+						if !b.Dominates(rd.lk.Block()) {
+							ok2 = false
+						}
+					} else if !before(at, anchor(rd.p, rd.lk)) {
+						ok2 = false
+					}
 				}
+				r.Check("F7.handler", pr, "the new term's handler is installed before the cache is drained and is not written after it (a delivery may complete the height and install a newer handler that must survive)", "ConsumeCacheMessages", a.P.InstrPos(in), ok2, "the handler field is written after (or inside) the drain", "Re")
 			}
-			r.Check("F7.handler", pr, "the new term's handler is installed before the cache is drained and is not written after it (a delivery may complete the height and install a newer handler that must survive)", "ConsumeCacheMessages", a.P.InstrPos(in), ok2, "the handler field is written after (or inside) the drain", "Re")
 		}
 	}
 	if nStore == 0 {
@@ -142,8 +231,37 @@ func runC17(a *Analyzer, r *Results) {
 	}
 }
 
-// drainGuard: the call's block is dominated by an If inside the loop comparing a State.Height() call made inside the
-// loop with a value defined before the loop (the drain key), whose "different" edge leaves the loop.
+// mayDeliver: fn (transitively, through static and VTA-resolved callees) may call the consensus messages handler.
+func mayDeliver(a *Analyzer, fn *ssa.Function) bool {
+	seen := map[*ssa.Function]bool{}
+	var visit func(f *ssa.Function) bool
+	visit = func(f *ssa.Function) bool {
+		if seen[f] {
+			return false
+		}
+		seen[f] = true
+		for _, b := range f.Blocks {
+			for _, in := range b.Instrs {
+				ci, ok := in.(ssa.CallInstruction)
+				if !ok {
+					continue
+				}
+				cc := ci.Common()
+				if cc.IsInvoke() && strings.HasSuffix(typeShort(cc.Value.Type()), "ConsensusMessagesHandler") {
+					return true
+				}
+				if g := cc.StaticCallee(); g != nil && g.Blocks != nil && inLibraryScope(funcPkgPath(g)) {
+					if visit(g) {
+						return true
+					}
+				}
+			}
+		}
+		return false
+	}
+	return visit(fn)
+}
+
 func drainGuard(a *Analyzer, c *FCtx, l *Loop, call *ssa.Call) (bool, string) {
 	for b := range l.Body {
 		ifi, ok := b.Instrs[len(b.Instrs)-1].(*ssa.If)
